@@ -41,6 +41,28 @@ def extra_join_probe(tier, seed):
     return dict(violations=viol, coverage=dict(ask_join_cases=len(model), ask_join_rows=real))
 
 
+DD_PROBE_EXPECTED = [
+    "panic_while_asking run=recv edges_after_hook=0 callback=send boss=panic peer=ended edges_end=0 poisoned=false",
+    "select_drops_ask run=ok99 edges_after_hook=0 callback=ok1 boss=ended peer=ended edges_end=0 poisoned=false",
+    "timeout_drops_ask run=ok98 edges_after_hook=0 callback=ok1 boss=ended peer=ended edges_end=0 poisoned=false",
+]
+
+
+def extra_dd_probe(tier, seed):
+    """C12 / C15: the wait-for graph when an in-flight ask of a hook goes away by a panic of the hook
+    (join!), a select! that drops it, or a timeout - compositions the sequential model has no label
+    for.  Oracle: no residue (graph empty once no ask is in flight), the peer's later ask towards the
+    actor does not trip the detector, the mutex is not poisoned."""
+    bins = vlib.build_harness(("dd",), bins=("director", "dd_probe"))
+    real = vlib.sh([bins["dd_probe"]], timeout=300, check=True).stdout.strip().splitlines()
+    viol = []
+    if real != DD_PROBE_EXPECTED:
+        diff = [(r, e) for r, e in zip(real, DD_PROBE_EXPECTED) if r != e]
+        viol.append(dict(what="wait-for graph residue / false detection after an in-flight ask was dropped or its hook panicked",
+                         real=real, expected=DD_PROBE_EXPECTED, first_difference=diff[:1], replay_cmd="dd_probe"))
+    return dict(violations=viol, coverage=dict(dd_probe_scenarios=len(real), dd_probe_rows=real))
+
+
 def extra_id_stress(tier, seed):
     """C11: ids handed out by concurrent spawns from many OS threads (fresh process): the model's
     id_of_index says the n-th spawn gets id n, so n spawns give exactly 1..n, all distinct; every
@@ -311,6 +333,7 @@ PROPS = {
         props_file="Props/C12.v",
         families=[("multi", NONE, 150), ("multi", ("dd",), 150), ("fault", NONE, 100)],
         projection="C12", monitors=["C03", "C04", "C05", "C11", "C12"],
+        extra=[extra_dd_probe],
     ),
     "C08": dict(
         props_file="Props/C08.v",
@@ -332,7 +355,7 @@ PROPS = {
     ),
     "C13": dict(
         props_file="Props/C13.v",
-        families=[("time", ("testutils",), 150), ("fault", ("testutils",), 100), ("core", NONE, 50)],
+        families=[("time", ("testutils",), 150), ("fault", ("testutils",), 100), ("core", NONE, 50), ("block", NONE, 25)],
         projection="C13", monitors=["C13"],
     ),
     "C14": dict(
@@ -345,6 +368,7 @@ PROPS = {
         props_file="Props/C15.v",
         families=[("multi", ("dd",), 300)],
         projection="C15", monitors=["C15"],
+        extra=[extra_dd_probe],
         classify=monitors.classify_stale,
         level_text="The full statement is refuted in the model by a closed witness (C15_refuted) that replays on the real code (known finding, KNOWN_FINDINGS.txt). Proved for every reachable state (ids unique): a detection panic implies a chain of tracked edges; every tracked edge is an operation begun by the running hook of the key's actor that has not yet returned to it (so the only unsoundness is an answered-but-not-yet-resumed ask); non-actor callers are never tracked; no residue - the graph is empty once every operation has returned, and an actor whose hook awaits nothing has no edge. The real wait-for graph is compared with the model's at every quiescent point through the verification hook.",
         level_note="Partial only in that the property as stated is false of the code (known finding); everything else is an invariant proof plus correspondence.",
@@ -399,7 +423,7 @@ PROPS = {
     "C06": dict(
         props_file="Props/C06.v",
         families=[("core", NONE, 150), ("fault", NONE, 100), ("hostile", NONE, 50)],
-        projection="C06", monitors=["C06"],
+        projection="C06", monitors=["C06", "C04"],
     ),
 }
 
